@@ -111,6 +111,8 @@ pub fn recipe_case(ctx: &mut Ctx, input: &str, ext_bits: u32, conv: u8) -> Optio
             let fm = has_front_matter(input);
             let nontrivial = res.output().map(|r| !r.ingredients.is_empty() || !r.cookware.is_empty() || !r.timers.is_empty() || r.sections.len() > 1).unwrap_or(false) || !res.report().is_empty();
             ctx.case(format!("recipe {ext_bits} {conv} {}", enc_text(input)), r_analysis(&res, fm), nontrivial, desc);
+            // with front matter the reply above leaves its content out: the interpreted result goes through `recipe_fm`
+            if fm { crate::fm::fm_case(ctx, input, ext_bits, conv, (crate::util::hash64(input) % 4) as u8); }
             Some(res)
         }
     }
